@@ -42,13 +42,24 @@ def program(ta, tb):
     L.append("if (p and not q) { write('T'); } else { write('F'); }")
     L.append("if (p == q) { write('T'); } else { write('F'); }")
     L.append("int n = 0; while (n < 3 and a + n < b) { n += 1; } write(n);")
+    if ta == 'int':
+        # truthiness of a narrowed value: the low byte decides, not the whole word
+        L.append("if (a is byte) { write('T'); } else { write('F'); }")
+        L.append("if (not (a is byte)) { write('T'); } else { write('F'); }")
+        L.append("if ((a is byte) and q) { write('T'); } else { write('F'); }")
+        L.append("if ((a is byte) or q) { write('T'); } else { write('F'); }")
+        L.append("int m = 0; while ((a is byte) and m < 2) { m += 1; } write(m);")
+        L.append("write((a is byte) is bool); write(((a is byte) is bool) is int);")
     L.append('writeln();')
     # defeat position
     for op in CMP:
         L.append(f"try {{ !truth_is_defeat(a {op} b); write('n'); }} undo {{ write('d'); }}")
         L.append(f"try {{ !truth_is_defeat(a {op} b); write('n'); }} stop {{ write('d'); }}")
         L.append(f"try {{ !d(a {op} b); write('n'); }} undo {{ write('d'); }}")
-    for c in ('a is bool', 'not (a is bool)', 'p and q', 'p or q', 'not p', 'p == q', '(a < b) or (b < a)', 'p'):
+    conds = ['a is bool', 'not (a is bool)', 'p and q', 'p or q', 'not p', 'p == q', '(a < b) or (b < a)', 'p']
+    if ta == 'int':
+        conds += ['(a is byte) is bool', 'not (a is byte)', '(a is byte) or (b is byte)']
+    for c in conds:
         L.append(f"try {{ !truth_is_defeat({c}); write('n'); }} undo {{ write('d'); }}")
         L.append(f"try {{ !truth_is_defeat({c}); write('n'); }} stop {{ write('d'); }}")
     L.append('writeln();')
@@ -98,14 +109,24 @@ def expected(ta, tb, a, b, W):
     n = 0
     while n < 3 and wrap(a + n) < b:
         n += 1
-    out.append(str(n).encode() + b'\n')
+    out.append(str(n).encode())
+    if ta == 'int':
+        lb = (a & 0xFF) != 0
+        out.append(b''.join(b'T' if c else b'F' for c in (lb, not lb, lb and q, lb or q)))
+        out.append(b'2' if lb else b'0')
+        out.append(tf(lb) + (b'1' if lb else b'0'))
+    out.append(b'\n')
     d = []
     for op in CMP:
         c = cm[op]
         d.append(b'd' if c else b'n')
         d.append(b'd' if c else b'n')
         d.append(b'd' if c else b'()n')
-    for c in (p, not p, p and q, p or q, not p, p == q, a != b, p):
+    dc = [p, not p, p and q, p or q, not p, p == q, a != b, p]
+    if ta == 'int':
+        lb = (a & 0xFF) != 0
+        dc += [lb, not lb, lb or ((b & 0xFF) != 0)]
+    for c in dc:
         d.append(b'd' if c else b'n')
         d.append(b'd' if c else b'n')
     out.append(b''.join(d) + b'\n')
@@ -147,6 +168,11 @@ def items(tier):
             for a in ga:
                 out.append((i, 'B', W, ta, tb, a))
                 i += 1
+    # literal operands (the same operators on constants, which the compiler may evaluate itself)
+    for W in Ws:
+        for a in lit_values(W):
+            out.append((i, 'L', W, a))
+            i += 1
     # unary / casts: every 16-bit value, sharded
     if tier == 'thorough':
         step = 1024
@@ -158,6 +184,54 @@ def items(tier):
             out.append((i, 'U', 2, lo, lo + 32 if lo + 32 <= 32768 else 32768))
             i += 1
     return out
+
+
+def lit_values(W):
+    bits = 8 * W
+    mx = (1 << (bits - 1)) - 1
+    return [0, 1, 2, 7, 255, 256, mx - 1, mx, mx + 1, mx + 2, 2 * mx + 1, 2 * mx + 2, 2 * mx + 3]
+
+
+def literal_program(a, W):
+    L = ['empty @is_you() {']
+    for b in lit_values(W):
+        for op in ('+', '-', '*'):
+            L.append(f'write({a} {op} {b}); write(\' \');')
+        if b % (1 << (8 * W)) != 0:
+            L.append(f'write({a} / {b}); write(\' \'); write({a} % {b}); write(\' \');')
+        for op in CMP:
+            L.append(f'write({a} {op} {b});')
+        L.append(f"if ({a} < {b}) {{ write('T'); }} else {{ write('F'); }} write(-{a} < {b}); write(({a} is byte) is int); write({a} is bool);")
+        L.append(f"try {{ !truth_is_defeat({a} + 1 > {b}); write('n'); }} undo {{ write('d'); }}")
+        L.append('writeln();')
+    L.append('}')
+    return '\n'.join(L)
+
+
+def literal_expected(a, W):
+    bits = 8 * W
+    mask = (1 << bits) - 1
+
+    def wrap(v):
+        v &= mask
+        return v - (1 << bits) if v >> (bits - 1) else v
+    tf = lambda c: 'true' if c else 'false'     # noqa: E731
+    out = []
+    wa = wrap(a)
+    for b in lit_values(W):
+        wb = wrap(b)
+        s = ''
+        for v in (wa + wb, wa - wb, wa * wb):
+            s += f'{wrap(v)} '
+        if b % (1 << bits) != 0:
+            s += f'{wrap(wa // wb)} {wrap(wa % wb)} '
+        cm = {'<': wa < wb, '<=': wa <= wb, '>': wa > wb, '>=': wa >= wb, '==': wa == wb, '!=': wa != wb}
+        for op in CMP:
+            s += tf(cm[op])
+        s += ('T' if wa < wb else 'F') + tf(wrap(-wa) < wb) + str(wa & 0xFF) + tf(wa != 0)
+        s += 'd' if wrap(wa + 1) > wb else 'n'
+        out.append(s + '\n')
+    return ''.join(out).encode()
 
 
 U_SRC = """
@@ -211,6 +285,27 @@ def run_item(item, tier):
         for b in grid(W, tb, tier):
             _one(st, src, prog, lines, W, ta, tb, a, b)
         st.sample({'types': [ta, tb], 'W': W, 'a': a, 'b_values': len(grid(W, tb, tier))})
+    elif item[1] == 'L':
+        _, _, W, a = item
+        src = literal_program(a, W)
+        case = {'kind': 'lit', 'a': a, 'W': W}
+        st.add('evaluations', len(lit_values(W)))
+        r, err = run_impl(src, [], W, 64)
+        if err:
+            st.viol(f'literal operands a={a} at W={W}: {err}', case)
+        else:
+            st.vm(r)
+            exp = literal_expected(a, W)
+            if r.outcome != 'loop' or r.flags != ['win'] or r.output != exp:
+                got = r.output.split(b'\n')
+                want = exp.split(b'\n')
+                k = next((j for j in range(min(len(got), len(want))) if got[j] != want[j]), min(len(got), len(want)))
+                st.viol(f'literal operands a={a}, b={lit_values(W)[k] if k < len(lit_values(W)) else "?"} at W={W}: expected {want[k] if k < len(want) else None!r} '
+                        f'observed {got[k] if k < len(got) else None!r} ({r.outcome} {r.flags})', case)
+            else:
+                st.add('traces_validated_against_impl')
+                st.add('nontrivial', len(lit_values(W)))
+        st.sample({'literal_operand_a': a, 'W': W, 'b_values': lit_values(W)})
     else:
         _, _, W, lo, hi = item
         lines, err, prog = _compiled(('U', W), U_SRC, W)
@@ -276,6 +371,7 @@ def coverage(total, tier):
                   '(0, +-1, +-2, 127/128, 255/256/257, +-2^(8k)+-1, min, max, min+1, max-1, ...: '
                   + ('full grid' if tier == 'thorough' else 'at most 40 values per operand') + ') at W in '
                   + ('2,3,4,8' if tier == 'thorough' else '2,3,4'),
+        'literals': 'the same operators with both operands written as literals (13 values per word size incl. max, max+1, 2^n-1, 2^n, 2^n+1): all 169 pairs',
         'unary': ('all 65536 values' if tier == 'thorough' else '6 windows of 32 values around the boundaries') + ' at W=2 for - , is byte, is bool, not, *, /, %, <',
     })
     cov['ref_crosschecks'] = total.get('ref_crosschecks', 0)
@@ -291,6 +387,9 @@ def vacuity(total, tier):
 
 def replay(case):
     st = Stats()
+    if case['kind'] == 'lit':
+        st2 = run_item((0, 'L', case['W'], case['a']), 'quick')
+        return [v['msg'] for v in st2.get('viol', [])]
     if case['kind'] == 'ops':
         src = program(case['ta'], case['tb'])
         lines, err = compile_case(src, case['W'], 64)
